@@ -1,18 +1,9 @@
 (* Proofs/CatalogueTrace.v — the verdicts recorded by run_trace (what ./check compares with the real code):
    for every history of the repaired model the `inv` and `data` verdicts of every recorded step are true. *)
 From Coq Require Import ZArith List Bool Lia.
-From EV Require Import Res Catalogue CatalogueSpec CatalogueBase CatalogueInv CatalogueRename CatalogueStep CatalogueObs CatalogueData.
+From EV Require Import Res Catalogue CatalogueSpec CatalogueBase CatalogueInv CatalogueRename CatalogueStep CatalogueObs CatalogueData CatalogueHandles CatalogueVerdicts.
 Import ListNotations.
 Open Scope Z_scope.
-
-Lemma register_prefix : forall fs held, exists extra, register held fs = held ++ extra.
-Proof.
-  induction fs as [|f t IH]; intros held; cbn [register].
-  - exists []. rewrite app_nil_r. reflexivity.
-  - destruct (zmem f held).
-    + apply IH.
-    + destruct (IH (held ++ [f])) as [e E]. exists ([f] ++ e). rewrite E, <- app_assoc. reflexivity.
-Qed.
 
 Lemma register_bound b : forall fs held,
   (forall f, In f held -> f < b) -> (forall f, In f fs -> f < b) -> forall f, In f (register held fs) -> f < b.
@@ -111,4 +102,32 @@ Proof.
   destruct (run_trace c ops init_state []) as [tr sf]. cbn [snd] in *.
   unfold final_views in Ix. apply in_map_iff in Ix. destruct Ix as (i & <- & _). cbn [snd].
   apply Inv_chk_reopen. exact I.
+Qed.
+
+(* ------------------------------------------------------------------ the full statement: every verdict of every step *)
+Theorem run_trace_all_true c : fix_a c = true -> fix_b c = true ->
+  forall ops s held, Forall wf_op ops -> Inv s -> closed s held -> (forall f, In f held -> f < next_id s) ->
+  forall sr, In sr (fst (run_trace c ops s held)) -> all_true (sr_flags sr) = true.
+Proof.
+  intros FA FB. induction ops as [|p t IH]; intros s held WF I CL Hb sr Isr; cbn [run_trace fst] in Isr; [contradiction|].
+  inversion WF as [|? ? WFp WFt]; subst.
+  destruct (step c p s) as [s' r] eqn:E.
+  pose proof (step_Inv c p s s' r FA FB I E) as I'.
+  assert (Hb' : forall f, In f (rescan s' held) -> f < next_id s').
+  { unfold rescan. apply register_bound.
+    - intros f If. destruct (step_keeps_data c p s s' r f E (Hb f If)) as (_ & _ & ?). pose proof (Hb f If). lia.
+    - apply catalogued_bound. exact I'. }
+  pose proof (step_verdicts c p s s' r held FA I CL Hb WFp E I') as V. rewrite V in Isr.
+  destruct (run_trace c t s' (rescan s' held)) as [rest sf] eqn:ER. cbn [fst] in Isr. destruct Isr as [<-|Isr].
+  - cbn [sr_flags]. exact V.
+  - apply (IH s' (rescan s' held) WFt I' (rescan_closed s' held) Hb' sr). rewrite ER. exact Isr.
+Qed.
+
+Theorem case_ok_true c ops : fix_a c = true -> fix_b c = true -> Forall wf_op ops -> case_ok c ops = true.
+Proof.
+  intros FA FB WF. unfold case_ok.
+  pose proof (run_trace_all_true c FA FB ops init_state [] WF init_Inv ltac:(intros ? []) ltac:(intros ? [])) as A.
+  pose proof (case_reopen_ok c ops FA FB) as B. unfold run_case in *.
+  destruct (run_trace c ops init_state []) as [tr sf]. cbn [fst snd] in *.
+  apply andb_true_iff. split; apply forallb_forall; auto.
 Qed.
